@@ -69,7 +69,7 @@ func (s scenario) id() string {
 // failing reports whether save 1 of the scenario is a save that must fail and
 // leave the previous version in place.
 func (s scenario) failing() bool {
-	return s.Fault != "" || s.Kind == "filterfail" || s.Kind == "seturlfail"
+	return s.Fault != "" || s.Kind == "filterfail" || s.Kind == "seturlfail" || s.Kind == "filterlong"
 }
 
 type caseC struct {
@@ -92,7 +92,7 @@ func sizes(tier string) []int {
 }
 
 func scenarios(tier string) (out []scenario) {
-	for _, kind := range []string{"config", "upgrade", "leases", "filter", "filterfail", "seturl", "seturlfail"} {
+	for _, kind := range []string{"config", "upgrade", "leases", "filter", "filterfail", "filterlong", "seturl", "seturlfail"} {
 		for _, sz := range sizes(tier) {
 			for _, old := range []bool{true, false} {
 				for _, tmp := range []string{"same", "other"} {
@@ -101,12 +101,12 @@ func scenarios(tier string) (out []scenario) {
 						// three sizes are enough for the one extra write path.
 						continue
 					}
-					if (kind == "filterfail" || kind == "seturl" || kind == "seturlfail") && (!old || (sz != 4096 && sz != 1<<20)) {
+					if (kind == "filterfail" || kind == "filterlong" || kind == "seturl" || kind == "seturlfail") && (!old || (sz != 4096 && sz != 1<<20)) {
 						// A failing refresh of an existing list, and changing the
 						// address of an existing list (download succeeds / breaks): two sizes.
 						continue
 					}
-					if kind != "filter" && kind != "filterfail" && kind != "seturl" && kind != "seturlfail" && sz == 1 {
+					if kind != "filter" && kind != "filterfail" && kind != "filterlong" && kind != "seturl" && kind != "seturlfail" && sz == 1 {
 						// Same file as size 0: the writer's minimum.
 						continue
 					}
@@ -185,7 +185,7 @@ func (r *runner) childArgs(dir string) []string {
 
 // calibrate asks an untraced child for the padding that gives the wanted size.
 func (r *runner) calibrate() (actual int, err error) {
-	if r.sc.Kind == "filter" || r.sc.Kind == "filterfail" || r.sc.Kind == "seturl" || r.sc.Kind == "seturlfail" {
+	if r.sc.Kind == "filter" || r.sc.Kind == "filterfail" || r.sc.Kind == "filterlong" || r.sc.Kind == "seturl" || r.sc.Kind == "seturlfail" {
 		// Analytic: see filterBody.
 		r.calib = "-"
 		return max(r.sc.Size, 2), nil
@@ -791,7 +791,7 @@ func main() {
 				"distinct_file_sizes":            m.Distinct["file_sizes"],
 				"max_file_bytes":                 m.Maxes["max_file_bytes"],
 				"rule": "free-running race-detector runs of two goroutines saving the configuration concurrently (no data race in the writer, the stored file is one complete document); 3 writers (home.configuration.write, dhcpd onNotify->dbStore->writeDB, filtering tryRefreshFilters->updateIntl->finalizeUpdate) plus the loader's schema-upgrade rewrite, " +
-					"a refresh / a set_url whose download breaks half-way, set_url that succeeds, and for each of the 3 writers at 4096 B and 1 MiB a save 1 during which no file may grow beyond half / all but one byte of its size (RLIMIT_FSIZE; the save fails and must leave the previous version), x wanted sizes " +
+					"a refresh / a set_url whose download breaks half-way, a refresh whose new version holds a line longer than the parser accepts, set_url that succeeds, and for each of the 3 writers at 4096 B and 1 MiB a save 1 during which no file may grow beyond half / all but one byte of its size (RLIMIT_FSIZE; the save fails and must leave the previous version), x wanted sizes " +
 					"{0,1,4095,4096,4097,1 MiB}(+32 MiB thorough; the writer's minimum where smaller sizes cannot exist: configuration 3519 B, lease database 141 B = one lease, filter list 0 B only as the middle version and 2 B instead of 1 B) x destination {present, absent} before x temporary-file placement " +
 					"{next to destination, other directory}; per scenario two successive saves; (a) one real SIGKILL on entry to every file-system call touching the working directory between " +
 					"the markers (every call of the kill set), destination then read back; (b) every power-loss state of the recorded log: prefix x namespace operations lost (any suffix not " +
